@@ -8,7 +8,8 @@
   * which operator classes define the solve-related hooks (solve, _solve, _cholesky_solve, _cholesky,
     inverse, _solve_preconditioner, _preconditioner, inv_quad, inv_quad_logdet);
   * the stopping-rule constants of `linear_cg` (defaults eps, stop_updating_after; the `min(10, max_iter - 1)` guard);
-  * the preconditioner switch of AddedDiagLinearOperator._preconditioner.
+  * the preconditioner switch of AddedDiagLinearOperator._preconditioner;
+  * which `settings._linalg_dtype_*` value every operator method reads (eigen-structured solves <-> symeig dtype).
 """
 import ast
 import os
@@ -114,12 +115,32 @@ def _precond_switch():
     return "?"
 
 
+def _dtype_reads():
+    """(class, method, sorted settings._linalg_dtype_* names read) for every operator method reading one."""
+    d = os.path.join(REPO, "linear_operator/operators")
+    rows = []
+    for fn in sorted(os.listdir(d)):
+        if not fn.endswith(".py"):
+            continue
+        tree = ast.parse(open(os.path.join(d, fn)).read())
+        for node in tree.body:
+            if not isinstance(node, ast.ClassDef):
+                continue
+            for st in node.body:
+                if isinstance(st, ast.FunctionDef):
+                    names = sorted({sub.attr for sub in ast.walk(st) if isinstance(sub, ast.Attribute) and sub.attr.startswith("_linalg_dtype")})
+                    if names:
+                        rows.append((node.name, st.name, names))
+    return sorted(rows)
+
+
 def extract():
     st, sr = _branches(_func("linear_operator/functions/_solve.py", "_solve"))
     it, ir = _branches(_func("linear_operator/functions/_inv_quad.py", "_solve"))
     dflt, fc = _settings_defaults()
     return {"solve_tests": st, "solve_returns": sr, "invquad_tests": it, "invquad_returns": ir, "defaults": dflt,
-            "fast": fc, "classes": _class_table(), "cg": _cg_facts(), "precond": _precond_switch()}
+            "fast": fc, "classes": _class_table(), "cg": _cg_facts(), "precond": _precond_switch(),
+            "dtype_reads": _dtype_reads()}
 
 
 def _nat(s, fallback=0):
@@ -156,6 +177,9 @@ def generate():
            f"def cgStopTests : List String := [{', '.join(lean_str(x) for x in f['cg']['stop_tests'])}]",
            f"def cgNIter : String := {lean_str(f['cg'].get('n_iter', '?'))}",
            f"def precondSwitch : String := {lean_str(f['precond'])}", "",
+           "/-- (class, method, the `settings._linalg_dtype_*` values it reads) for every operator method reading one -/",
+           "def linalgDtypeReads : List (String × String × List String) := ["
+           + ", ".join(f"({lean_str(c)}, {lean_str(m)}, [{', '.join(lean_str(x) for x in ns)}])" for c, m, ns in f["dtype_reads"]) + "]", "",
            "/-- (class, solve-related hooks it defines) for every operator class defining at least one -/",
            "def hookTable : List (String × List String) := ["]
     rows = [f"  ({lean_str(c)}, [{', '.join(lean_str(h) for h in hs)}])" for c, _, hs in f["classes"]]
